@@ -594,12 +594,23 @@ def generate():
     fuse_helpers = helpers_of(fu, 'RasterFuse', keep=('_process_block', 'process', 'read', 'block_pairs', '_out_files', '_set_metadata', '_set_corr_metadata',
                                                       '_set_param_metadata', '_build_overviews', '_merge_corr_profile', '_merge_param_profile', 'open', 'close'))
     fuse_ir = Worker(inline={'self.read': read_ir}, callee_writes=callee_writes, helpers=fuse_helpers, alias=pb_alias).stmts(pb.body)
-    cmp_ir = Worker(inline={'self.read': read_ir}, shared_names=['image_sums'], callee_writes=callee_writes).stmts(
+    def outer_aliases(fn):
+        """`x = self.<dataset or lock attribute>` in the enclosing function: the nested worker may use x"""
+        out_ = {}
+        for s_ in ast.walk(fn):
+            if isinstance(s_, ast.Assign) and len(s_.targets) == 1 and isinstance(s_.targets[0], ast.Name) and isinstance(s_.value, ast.Attribute):
+                v_ = ast.unparse(s_.value)
+                if v_ in RES or v_ in LOCKS:
+                    out_[s_.targets[0].id] = v_
+        return out_
+    cmp_ir = Worker(inline={'self.read': read_ir}, shared_names=['image_sums'], callee_writes=callee_writes, alias=outer_aliases(find_func(cm, 'RasterCompare', 'process')),
+                    helpers=helpers_of(cm, 'RasterCompare', keep=('process', 'read', 'block_pairs', '_get_image_stats', '_get_resampling', 'open', 'close'))).stmts(
         find_func(cm, 'RasterCompare', 'process', 'get_block_sums').body)
     stats_writes = lambda recv, meth: callee_writes(recv, meth, stats_family, ['ParamStats'])  # noqa: E731
-    sw_ir = Worker(shared_names=['im_data_win'], callee_writes=stats_writes).stmts(
+    sw_ir = Worker(shared_names=['im_data_win'], callee_writes=stats_writes, alias=outer_aliases(find_func(st, 'ParamStats', '_get_data_window'))).stmts(
         find_func(st, 'ParamStats', '_get_data_window', 'get_block_data_window').body)
-    ss_ir = Worker(shared_names=['image_accum'], callee_writes=stats_writes).stmts(find_func(st, 'ParamStats', 'stats', 'get_block_sums').body)
+    ss_ir = Worker(shared_names=['image_accum'], callee_writes=stats_writes, alias=outer_aliases(find_func(st, 'ParamStats', 'stats'))).stmts(
+        find_func(st, 'ParamStats', 'stats', 'get_block_sums').body)
     process = find_func(fu, 'RasterFuse', 'process')
     rows = opens_survey()
     cli = cli_info()
